@@ -62,7 +62,8 @@ type gen struct {
 	tok     int
 	budget  int
 	hasMain bool
-	noLinks int // > 0 while generating inside an <a>: no nested links (HTML 4.5.1: no interactive descendants)
+	noLinks int    // > 0 while generating inside an <a>: no nested links (HTML 4.5.1: no interactive descendants)
+	shared  string // the neutral class name this document uses on many elements ("" = not drawn yet)
 }
 
 func (g *gen) bool(label string) bool { return rapid.Bool().Draw(g.t, label) }
@@ -183,10 +184,33 @@ func (g *gen) classID(n *Node) {
 		key = "id"
 	}
 	v := g.pick(pool, "name")
-	if key == "class" && g.chance(4, "cls2") {
+	if key == "class" && &pool[0] == &VocabNeutral[0] && g.bool("sharedClass") {
+		// pages repeat one class attribute on many elements
+		if g.shared == "" {
+			g.shared = g.pick([]string{"panel", "card", "box", "item"}, "sharedName")
+		}
+		v = g.shared
+	} else if key == "class" && g.chance(4, "cls2") {
 		v = g.pick(VocabNeutral, "name2") + " " + v
 	}
 	n.Attr = append(n.Attr, Attr{K: key, V: v, Q: uint8(g.int(0, 3, "q"))})
+	if g.chance(3, "both?") {
+		// class and id on one element, each from its own pool (a neutral class shared by many elements next to an id
+		// from the vocabulary, and the other way round)
+		other := "id"
+		if key == "id" {
+			other = "class"
+		}
+		p2 := [][]string{VocabExact, VocabExact, VocabNear, VocabNeutral}[g.int(0, 3, "vk2")]
+		v2 := g.pick(p2, "name3")
+		if other == "class" && g.bool("sharedClass2") {
+			if g.shared == "" {
+				g.shared = g.pick([]string{"panel", "card", "box", "item"}, "sharedName")
+			}
+			v2 = g.shared
+		}
+		n.Attr = append(n.Attr, Attr{K: other, V: v2, Q: uint8(g.int(0, 3, "q"))})
+	}
 }
 
 func (g *gen) maybeAttrs(n *Node, allowRole bool) {
@@ -236,10 +260,26 @@ func (g *gen) pre() *Node {
 		kids = append(kids, t)
 	}
 	n := g.el("pre")
-	if g.bool("precode") {
-		n.Kids = []*Node{g.el("code", kids...)}
-	} else {
+	switch g.int(0, 5, "preform") {
+	case 0, 1:
 		n.Kids = kids
+	case 2, 3:
+		n.Kids = []*Node{g.el("code", kids...)}
+	case 4:
+		// one <code> per line ("$ <code>ls</code> --color": text beside the code elements belongs to the block too)
+		for _, k := range kids {
+			n.Kids = append(n.Kids, g.el("code", k))
+		}
+	default:
+		// text, then code, then text (a prompt in front of a command, its output behind)
+		head := g.text()
+		head.S = head.S&^(3<<3|3<<5) | 1<<5
+		n.Kids = append(n.Kids, head, g.el("code", kids...))
+		if g.bool("pretail") {
+			tail := g.text()
+			tail.S = tail.S&^(3<<3|3<<5) | 1<<3
+			n.Kids = append(n.Kids, tail)
+		}
 	}
 	return n
 }
